@@ -1,5 +1,8 @@
 """C18 - runtime errors are reported at the right file and line with a correct trace."""
 import os
+import re
+
+from nvlib import extract as X
 
 from nvlib import engine as E
 from nvlib.check import Prop
@@ -39,6 +42,15 @@ class Src:
         self.toks.append("%s%d" % (kind, n))
         self.line += n
 
+    def strip_nl(self):
+        """drop the newline that ends the file (no-op when the file ends in padding)"""
+        # (a `//` comment as the last line of a file without newline is not generated: the lexer's skip_line() runs
+        # past the end marker of an included file and compiles stale buffer text - a compile-time defect outside C18)
+        if self.buf.endswith("\n") and not self.buf[:-1].split("\n")[-1].lstrip().startswith("//"):
+            self.buf = self.buf[:-1]
+            return True
+        return False
+
     def cmd(self):
         self._flush()
         return "file %s %s" % (self.path, " ".join(self.toks))
@@ -76,13 +88,26 @@ class Gen:
         return n
 
     # -- function bodies ---------------------------------------------------
-    def fn_call(self, src, name, nxt, prog, obj, frames):
+    def fn_call(self, src, name, nxt, prog, obj, frames, oneline=False):
         """non-final chain function `name` calling the next one; `nxt` is a function name, `::name` (call of the
         inherited definition) or a callable arg -> call expression (call_other); appends this frame's trace records"""
         r = self.rng
         call = nxt if callable(nxt) else (lambda a: "%s(%s)" % (nxt, a))
         kinds = CALLS if not (isinstance(nxt, str) and nxt.startswith("::")) else CALLS_PLAIN
         kind = r.weighted(kinds)
+        if oneline:
+            # the whole function on ONE line (used for the last line of a file)
+            kind = r.choice(["ret", "assign", "catch"] + ([] if kinds is CALLS_PLAIN else ["funlit"]))
+            body = {"ret": "return %s + 1;" % call("k"), "assign": "x_ = %s; return x_;" % call("k"),
+                    "catch": "return catch(%s) ? 1 : 0;" % call("k"),
+                    "funlit": "return evaluate((: %s :), k) + 1;" % call("$1")}[kind]
+            lo = src.line
+            src.text("int %s(int k) { %s }\n" % (name, body))
+            frames.append((name, prog, obj, src.name, lo, lo))
+            if kind == "funlit":
+                frames.append(("<function>", prog, obj, src.name, lo, lo))
+            self.meta.setdefault("calls", []).append(kind)
+            return kind == "catch"
         src.text("int %s(int k) {\n" % name)
         src.pad("s", r.weighted(FILL))
         if r.chance(1, 4):
@@ -115,9 +140,21 @@ class Gen:
         self.meta.setdefault("calls", []).append(kind)
         return kind == "catch"
 
-    def fn_fail(self, src, name, prog, obj, frames, kind=None):
+    def fn_fail(self, src, name, prog, obj, frames, kind=None, oneline=False):
         r = self.rng
         kind = kind or r.weighted(FAILS)
+        if oneline:
+            if kind not in ("error", "div", "index", "funlit"):
+                kind = r.choice(["error", "div", "index", "funlit"])
+            body = {"error": 'error("boom");', "div": "x_ = 10 / k;", "index": "x_ = ({ 1, 2 })[k + 5];",
+                    "funlit": "return evaluate((: 10 / $1 :), k);"}[kind]
+            lo = src.line
+            src.text("int %s(int k) { %s return 0; }\n" % (name, body))
+            frames.append((name, prog, obj, src.name, lo, lo))
+            if kind == "funlit":
+                frames.append(("<function>", prog, obj, src.name, lo, lo))
+            self.meta["fail"] = kind
+            return None
         src.text("int %s(int k) {\n" % name)
         if kind in ("longarr",):
             src.text("  mixed a_;\n")
@@ -178,20 +215,25 @@ class Gen:
 
     # -- one program: main file + include tree; returns list of Src ------------
     def program(self, path, fnames, nxt_after, prog_obj, frames, head, depth, fail_kind=None, fail_slot=None,
-                prepad=None):
+                prepad=None, tails=None):
         """fnames: chain functions defined in this program, in call order; the last one calls nxt_after (a function
-        of the inherited program) or, when nxt_after is None, fails."""
+        of the inherited program) or, when nxt_after is None, fails.
+        tails: how each file ends — nl (newline after the last line), nonl (no newline at the end of the file), blank
+        (trailing blank lines), oneline / oneline-nonl (the last function of the file is one line, so a call site or the
+        failing statement is on the LAST line of the file), single (the deepest include is that one line and nothing else)"""
         r = self.rng
         main = Src(path)
         prog, obj = prog_obj
+        TAILS = [("nl", 5), ("nonl", 2), ("blank", 1), ("oneline-nonl", 4), ("oneline", 1), ("single", 2)]
+        tails = list(tails) if tails else []
+        tails += [r.weighted(TAILS) for _ in range(depth + 1 - len(tails))]
         main.text(head)
         if prepad:
             main.pad(prepad[0], prepad[1])
         else:
             self.padding(main, allow_big=True)
         incs = [Src("%s/%s_i%d.h" % (self.d, os.path.basename(path)[:-2], i + 1)) for i in range(depth)]
-        for i, s in enumerate(incs):
-            s.text("// include level %d\n" % (i + 1))
+        # slots in compilation order (see below); the deepest include may consist of one line only
         # slots in compilation order: main-pre, inc1-pre, ..., incD, ..., inc1-post, main-post
         files = [main] + incs
         slots = list(range(depth + 1)) + list(range(depth - 1, -1, -1))
@@ -201,6 +243,10 @@ class Gen:
             if fail_slot is not None and fn == fnames[-1]:
                 si = fail_slot % len(slots)
             place.setdefault(si, []).append(fn)
+        single = depth > 0 and tails[depth] == "single" and len(place.get(depth, [])) == 1
+        for i, s in enumerate(incs):
+            if not (single and i == depth - 1):
+                s.text("// include level %d\n" % (i + 1))
         # the failing / last function goes to a random slot as well; order inside a slot = call order is irrelevant
         caught = False
         err = None
@@ -208,31 +254,42 @@ class Gen:
         for si, fi in enumerate(slots):
             src = files[fi]
             going_down = si < depth
+            final_slot = si == (depth if fi == depth else len(slots) - 1 - fi)
             for fn in place.get(si, []):
-                self.padding(src, allow_big=(fi == 0 and not going_down))
+                one = final_slot and fn == place[si][-1] and (tails[fi].startswith("oneline") or (single and fi == depth))
+                if not (single and fi == depth):
+                    self.padding(src, allow_big=(fi == 0 and not going_down))
                 idx = fnames.index(fn)
                 fr = []
                 if idx + 1 < len(fnames) or nxt_after:
                     nxt = fnames[idx + 1] if idx + 1 < len(fnames) else nxt_after
-                    if self.fn_call(src, fn, nxt, prog, obj, fr):
+                    if self.fn_call(src, fn, nxt, prog, obj, fr, oneline=one):
                         caught = True
                 else:
-                    err = self.fn_fail(src, fn, prog, obj, fr, fail_kind)
+                    err = self.fn_fail(src, fn, prog, obj, fr, fail_kind, oneline=one)
+                if one:
+                    self.meta.setdefault("lastline", []).append(("fail" if not (idx + 1 < len(fnames) or nxt_after) else "call")
+                                                                + ("-inc%d" % fi if fi else "-main"))
                 recs[fn] = fr
                 self.meta.setdefault("slots", []).append("%s%d%s" % ("i" if fi else "m", fi, "" if fi == depth else ("<" if going_down else ">")))
             if going_down:
                 self.padding(src)
                 src.text('#include "%s"\n' % os.path.basename(incs[fi].path))
-            elif si < len(slots) - 1:
-                # leaving include fi: nothing to write; parent continues
-                pass
-        main.text("// end\n")
+        for fi, src in enumerate(files):
+            t = tails[fi]
+            if t in ("nonl", "oneline-nonl") or (t == "single" and fi == depth and single):
+                if src.strip_nl():
+                    self.meta.setdefault("nonl", []).append(fi)
+            elif t == "blank":
+                src.pad("n", r.range(1, 3))
+            elif fi == 0 and t == "nl" and r.chance(1, 2):
+                src.text("// end\n")
         for fn in fnames:
             frames.extend(recs[fn])
         return files, caught, err
 
     def build(self, fail_kind=None, depth=None, bdepth=None, nchild=None, nbase=None, binary=None, fail_slot=None,
-              prepad=None, kind="plain", other=None, override=None):
+              prepad=None, kind="plain", other=None, override=None, tails=None, btails=None):
         """chain of calls: child functions (object m) -> [child's override b1 calling ::b1] -> inherited functions, or
         child functions -> call_other into object `other` -> its functions -> [functions other inherits]"""
         r = self.rng
@@ -263,7 +320,7 @@ class Gen:
             nxt_child = (lambda a: '"%s"->%s(%s)' % (oobj, of[0], a)) if r.chance(1, 2) else \
                         (lambda a: 'call_other("%s", "%s", %s)' % (oobj, of[0], a))
             files, c1, _ = self.program("%s/m.c" % d, cf, nxt_child, (cprog, cobj), frames, head_for(cf[1:], False),
-                                        depth, fail_kind, None, prepad)
+                                        depth, fail_kind, None, prepad, tails)
             ofiles, c2, _ = self.program("%s/other.c" % d, of, bf[0] if bf else None, (oprog, oobj), frames,
                                          head_for(of[1:], inherit), r.weighted([(0, 3), (1, 2)]), fail_kind,
                                          None if bf else fail_slot)
@@ -274,14 +331,15 @@ class Gen:
             cfn = cf + ([bf[0]] if override else [])
             nxt_child = ("::" + bf[0]) if override else (bf[0] if bf else None)
             files, caught, _ = self.program("%s/m.c" % d, cfn, nxt_child, (cprog, cobj), frames,
-                                            head_for(cfn[1:], inherit), depth, fail_kind, None if bf else fail_slot, prepad)
+                                            head_for(cfn[1:], inherit), depth, fail_kind, None if bf else fail_slot, prepad,
+                                            tails)
             allfiles = list(files)
             run_obj = cobj
         if inherit:
             bdepth = r.weighted([(0, 3), (1, 2), (2, 1)]) if bdepth is None else bdepth
             bhead = pragma + "int x_;\n" + "".join("int %s(int k);\n" % f for f in bf[1:])
             bfiles, c3, _ = self.program("%s/base.c" % d, bf, None, (bprog, run_obj), frames, bhead, bdepth, fail_kind,
-                                         fail_slot)
+                                         fail_slot, None, btails)
             allfiles = bfiles + allfiles
             caught = caught or c3
         # `go` is called without arguments: k = 0 everywhere
@@ -419,7 +477,8 @@ class C18(Prop):
     theorems = ["NV.C18.line_roundtrip_raw", "NV.C18.line_roundtrip", "NV.C18.long_statement_ok",
                 "NV.C18.file_roundtrip", "NV.C18.file_roundtrip_ids", "NV.C18.file_roundtrip_partial",
                 "NV.C18.fresh_idsOf", "NV.C18.trace_order",
-                "NV.C18.runEms_li", "NV.C18.translateAbs_at", "NV.C18.widths_agree"]
+                "NV.C18.runEms_li", "NV.C18.translateAbs_at", "NV.C18.widths_agree",
+                "NV.C18.pass1Continues_iff", "NV.C18.scanContinues_iff", "NV.C18.split_agrees"]
     witness_theorems = ["NV.C18.file_roundtrip_Full_false", "NV.C18.line_roundtrip_Full_false",
                         "NV.C18.reinclude_wrong", "NV.C18.reinclude_repaired", "NV.C18.wide_wrong", "NV.C18.signed_short_wrong",
                         "NV.C18.init_block_only_noted", "NV.C18.init_replay"]
@@ -466,6 +525,57 @@ class C18(Prop):
                    "programs larger than 65535 bytes / line tables larger than 64 KB (program_size, file_info[0] are 16 bit)",
                    "MAX_INCLUDE_DEPTH overflow and GLOBAL_INCLUDE_FILE"]
 
+    LEAN_OP = {">": ">", "<": "<", ">=": "≥", "<=": "≤", "==": "=", "!=": "≠"}
+
+    @staticmethod
+    def _body(src, header, site):
+        i = src.find(header)
+        if i < 0:
+            raise X.TieBroken(site, "function not found: %s" % header)
+        j = src.find("\n}\n", i)
+        return src[i:j if j > 0 else len(src)]
+
+    def _loop_guard(self, text, lhs, rhs, site):
+        """the continue-condition of a scan loop `while (lhs OP rhs)` or of its rewritten form `if (lhs OP rhs) break;`:
+        returns (lean expression over `a`, `b`, C text)"""
+        ops = r"(<=|>=|==|!=|<|>)"
+        m = re.search(r"while\s*\(\s*%s\s*%s\s*%s\s*\)" % (lhs, ops, rhs), text)
+        if m:
+            return "a %s b" % self.LEAN_OP[m.group(1)], m.group(0)
+        m = re.search(r"if\s*\(\s*%s\s*%s\s*%s\s*\)\s*break" % (lhs, ops, rhs), text)
+        if m:
+            return "¬ (a %s b)" % self.LEAN_OP[m.group(1)], m.group(0)
+        raise X.TieBroken(site, "loop guard over %s and %s no longer has a known shape" % (lhs, rhs))
+
+    def gen_extra(self, ctx, bdir):
+        """the guards of the three scan loops, transcribed from the source (regex over the function bodies)"""
+        prog = open(os.path.join(E.REPO, "lib/lpc/program.c")).read()
+        sim = open(os.path.join(E.REPO, "src/simulate.c")).read()
+        icode = open(os.path.join(E.REPO, "lib/lpc/program/icode.c")).read()
+        tb = self._body(prog, "int translate_absolute_line", "translate_absolute_line")
+        first = tb.split("p2 = file_info")[0]
+        g1, c1 = self._loop_guard(first, r"line_tmp", r"\*\s*p1", "translate_absolute_line:pass1")
+        fb = self._body(sim, "static int find_line", "find_line")
+        g2, c2 = self._loop_guard(fb, r"offset", r"\*\s*lns", "find_line:scan")
+        sb = self._body(icode, "static void switch_to_line", "switch_to_line")
+        m = re.search(r"while\s*\(\s*sz\s*(<=|>=|==|!=|<|>)\s*(\d+)\s*\)", sb)
+        m2 = re.findall(r"\*p\+\+\s*=\s*(\d+)\s*;", sb)
+        m3 = re.search(r"sz\s*-=\s*(\d+)\s*;", sb)
+        if not (m and m2 and m3):
+            raise X.TieBroken("switch_to_line:split", "the run split loop no longer has the shape while (sz OP N) { *p++ = N; ... sz -= N; }")
+        out = []
+        out.append("/-- C (lib/lpc/program.c, first pass of translate_absolute_line): `%s` — does the scan go on to the next\n"
+                   "    segment when `a` lines are left and the segment has `b` lines? -/" % c1)
+        out.append("def pass1Continues (a : Int) (b : Int) : Bool := decide (%s)" % g1)
+        out.append("/-- C (src/simulate.c, find_line): `%s` -/" % c2)
+        out.append("def scanContinues (a : Int) (b : Int) : Bool := decide (%s)" % g2)
+        out.append("/-- C (lib/lpc/program/icode.c, switch_to_line): `%s`, the length written for a full run and the decrement -/" % m.group(0))
+        out.append('def splitOp : String := "%s"' % m.group(1))
+        out.append("def splitBound : Nat := %s" % m.group(2))
+        out.append("def splitLen : Nat := %s" % m2[0])
+        out.append("def splitDec : Nat := %s" % m3.group(1))
+        return "\n".join(out)
+
     def prepare(self, ctx):
         self.exe = E.compile_harness("c18", [os.path.join(E.VERIF, "harness/c18/c18.c")])
         self.conf = E.make_mudlib(ctx.rundir, master="/c18/master.c", extra_conf="SaveBinaryDir /bin\n")
@@ -481,6 +591,14 @@ class C18(Prop):
         res = E.run_harness(self.exe, self.conf, cases, ctx.rundir, timeout=3000)
         self._last = (tuple(c.id for c in cases), tuple(len(c.lines) for c in cases), res)
         return res
+
+    def run_judge(self, ctx, cases, impl):
+        """the engine's line-removal shrinker does not understand that the lines of a case depend on each other (files,
+        loads, applies and records are aligned): its candidates (ids s<k>) are refused, so a replay is always a case
+        exactly as it was generated"""
+        if cases and all(re.match(r"^s\d+$", c.id) for c in cases):
+            return {c.id: ["bad setup not-shrunk"] for c in cases}
+        return Prop.run_judge(self, ctx, cases, impl)
 
     def run_model(self, ctx, cases):
         """the model is driven by the observations of the implementation run (hook events, dumped tables, control
@@ -540,6 +658,28 @@ class C18(Prop):
         gen("fillers3000", fail_kind="index", depth=1, nchild=2, nbase=0, binary=False, prepad=("n", 1))
         for k in ("funlit", "funlit2", "funlitml", "longwrap", "longarr", "multi"):
             gen("kind-" + k, fail_kind=k, depth=1, nchild=2, nbase=1, binary=True)
+        # the failing statement / a call site on the LAST line of a file: with and without a newline at the end of the
+        # file, trailing blank lines, a file that is one line, an #include as the last line of its parent
+        LL = [("main-nonl", dict(depth=0, nchild=2, nbase=0, tails=["oneline-nonl"])),
+              ("main-nl", dict(depth=0, nchild=2, nbase=0, tails=["oneline"])),
+              ("main-blank", dict(depth=0, nchild=1, nbase=0, tails=["blank"])),
+              ("inc1-nonl", dict(depth=1, nchild=2, nbase=0, fail_slot=1, tails=["nl", "oneline-nonl"])),
+              ("inc1-nl", dict(depth=1, nchild=2, nbase=0, fail_slot=1, tails=["nonl", "oneline"])),
+              ("inc1-single", dict(depth=1, nchild=1, nbase=0, fail_slot=1, tails=["nl", "single"])),
+              ("inc1-single-parent-nonl", dict(depth=1, nchild=1, nbase=0, fail_slot=1, tails=["nonl", "single"])),
+              ("inc3-deepest-nonl", dict(depth=3, nchild=2, nbase=0, fail_slot=3, tails=["nl", "nl", "nl", "oneline-nonl"])),
+              ("inc3-all-nonl", dict(depth=3, nchild=4, nbase=0, fail_slot=3, tails=["oneline-nonl"] * 4)),
+              ("inc2-post-nonl", dict(depth=3, nchild=2, nbase=0, fail_slot=4, tails=["nl", "nl", "oneline-nonl", "nonl"])),
+              ("inc1-post-nonl", dict(depth=2, nchild=3, nbase=0, fail_slot=3, tails=["oneline-nonl"] * 3)),
+              ("main-post-nonl", dict(depth=2, nchild=3, nbase=0, fail_slot=4, tails=["oneline-nonl", "nonl", "single"])),
+              ("base-main-nonl", dict(depth=1, nchild=2, nbase=2, bdepth=0, btails=["oneline-nonl"], tails=["oneline-nonl"] * 2)),
+              ("base-inc-nonl", dict(depth=0, nchild=1, nbase=2, bdepth=1, fail_slot=1, btails=["nonl", "oneline-nonl"])),
+              ("base-inc-single-binary", dict(depth=0, nchild=1, nbase=1, bdepth=1, fail_slot=1, btails=["nl", "single"], binary=True)),
+              ("other-nonl-binary", dict(depth=1, nchild=2, nbase=1, bdepth=1, fail_slot=1, other=True, binary=True,
+                                         tails=["oneline-nonl"] * 2, btails=["oneline-nonl"] * 2))]
+        for i, (name, kw) in enumerate(LL):
+            kw.setdefault("binary", False)
+            gen("lastline-" + name, fail_kind=("div", "error", "index", "funlit")[i % 4], **kw)
         # inherited programs reached through `::` and through call_other, fresh and from the saved binaries
         for i, k in enumerate(("div", "funlit2", "error")):
             gen("override-%d" % i, fail_kind=k, depth=i, bdepth=1, nchild=2, nbase=2, binary=(i != 1), override=True)
@@ -560,7 +700,8 @@ class C18(Prop):
 
     def histogram(self, cases, impl):
         h = {"binary_all_reloaded_from_binary": 0, "binary_some_recompiled": 0, "fail": {}, "calls": {}, "depth": {}, "slots": {}, "inherit": 0, "binary": 0, "caught": 0, "long": 0,
-             "maxline_ge_255": 0, "maxline_ge_32768": 0, "eh_lines": 0, "other": 0, "override": 0}
+             "maxline_ge_255": 0, "maxline_ge_32768": 0, "eh_lines": 0, "other": 0, "override": 0,
+             "lastline": {}, "files_without_final_newline": 0}
         for c in cases:
             m = c.meta
             if "fail" in m:
@@ -571,6 +712,9 @@ class C18(Prop):
                 h["slots"][k] = h["slots"].get(k, 0) + 1
             if "depth" in m:
                 h["depth"][str(m["depth"])] = h["depth"].get(str(m["depth"]), 0) + 1
+            for k in m.get("lastline", []):
+                h["lastline"][k] = h["lastline"].get(k, 0) + 1
+            h["files_without_final_newline"] += len(m.get("nonl", []))
             for k in ("inherit", "binary", "caught", "other", "override"):
                 if m.get(k):
                     h[k] += 1
